@@ -21,7 +21,7 @@ from Geometry3D import (Point, Vector, Line, Plane, Segment, HalfLine, ConvexPol
 
 from .. import core, lib, exact as X, alphabet as A
 from ..core import Viol
-from ..snapshot import snapshot, values
+from ..snapshot import snapshot, values, observable
 from .C07 import attrs, near
 
 LEVEL = 'model_checking'
@@ -42,25 +42,28 @@ def module_globals():
     return out
 
 
+BUILDERS = {
+    'Point#0': lambda: Point(1.0, 1.0, 0.0),
+    'Point#1': lambda: Point(0.5, 0.5, 0.5),
+    'Vector#0': lambda: Vector(1.0, 2.0, -1.0),
+    'Vector#1': lambda: Vector(0.0, 0.0, 2.0),
+    'Line#0': lambda: Line(Point(0.0, 0.0, 0.0), Vector(1.0, 1.0, 0.0)),
+    'Line#1': lambda: Line(Point(1.0, 0.0, 1.0), Vector(0.0, 1.0, -1.0)),
+    'Plane#0': lambda: Plane(Point(0.0, 0.0, 0.5), Vector(0.0, 0.0, 1.0)),
+    'Plane#1': lambda: Plane(Point(1.0, 0.0, 0.0), Vector(1.0, 1.0, 1.0)),
+    'Segment#0': lambda: Segment(Point(0.0, 0.0, 0.0), Point(2.0, 2.0, 0.0)),
+    'Segment#1': lambda: Segment(Point(1.0, 0.0, 0.0), Point(1.0, 2.0, 2.0)),
+    'HalfLine#0': lambda: HalfLine(Point(2.0, 2.0, 2.0), Vector(-1.0, -1.0, -1.0)),
+    'HalfLine#1': lambda: HalfLine(Point(0.0, 1.0, 0.0), Vector(1.0, 0.0, 0.0)),
+    'ConvexPolygon#0': lambda: lib.to_lib(A.polygon('square')),
+    'ConvexPolygon#1': lambda: lib.to_lib(A.P1(A.polygon('triangle'))),
+    'ConvexPolyhedron#0': lambda: lib.to_lib(A.polyhedron('tetrahedron')),
+    'ConvexPolyhedron#1': lambda: lib.to_lib(X.xform(A.polyhedron('box'), ((1, 0, 0), (0, 1, 0), (0, 0, 1)), 1, (F(1, 2), F(1, 2), F(-1, 2)))),
+}
+
+
 def make_pool():
-    P = {}
-    P['Point#0'] = Point(1.0, 1.0, 0.0)
-    P['Point#1'] = Point(0.5, 0.5, 0.5)
-    P['Vector#0'] = Vector(1.0, 2.0, -1.0)
-    P['Vector#1'] = Vector(0.0, 0.0, 2.0)
-    P['Line#0'] = Line(Point(0.0, 0.0, 0.0), Vector(1.0, 1.0, 0.0))
-    P['Line#1'] = Line(Point(1.0, 0.0, 1.0), Vector(0.0, 1.0, -1.0))
-    P['Plane#0'] = Plane(Point(0.0, 0.0, 0.5), Vector(0.0, 0.0, 1.0))
-    P['Plane#1'] = Plane(Point(1.0, 0.0, 0.0), Vector(1.0, 1.0, 1.0))
-    P['Segment#0'] = Segment(Point(0.0, 0.0, 0.0), Point(2.0, 2.0, 0.0))
-    P['Segment#1'] = Segment(Point(1.0, 0.0, 0.0), Point(1.0, 2.0, 2.0))
-    P['HalfLine#0'] = HalfLine(Point(2.0, 2.0, 2.0), Vector(-1.0, -1.0, -1.0))
-    P['HalfLine#1'] = HalfLine(Point(0.0, 1.0, 0.0), Vector(1.0, 0.0, 0.0))
-    P['ConvexPolygon#0'] = lib.to_lib(A.polygon('square'))
-    P['ConvexPolygon#1'] = lib.to_lib(A.P1(A.polygon('triangle')))
-    P['ConvexPolyhedron#0'] = lib.to_lib(A.polyhedron('tetrahedron'))
-    P['ConvexPolyhedron#1'] = lib.to_lib(X.xform(A.polyhedron('box'), ((1, 0, 0), (0, 1, 0), (0, 0, 1)), 1, (F(1, 2), F(1, 2), F(-1, 2))))
-    return P
+    return {k: lib.construct(k, mk) for k, mk in BUILDERS.items()}
 
 
 GEO = ('Point', 'Line', 'Plane', 'Segment', 'HalfLine', 'ConvexPolygon', 'ConvexPolyhedron')
@@ -138,19 +141,31 @@ def run_query(pool, q):
 
 
 def answer(r):
+    """representation-independent, rounding-tolerant form of a query answer (floats rounded
+    to 9 significant decimals: sums over id-ordered sets may differ in the last bits)."""
     if isinstance(r, lib.Raised):
         return repr(r)
-    return repr(values(lib.describe(r)))
+    c = lib.canon(r)
+
+    def rnd(x):
+        if isinstance(x, bool) or x is None or isinstance(x, (int, str)):
+            return x
+        if isinstance(x, float):
+            return float('%.9g' % x)
+        if isinstance(x, (list, tuple)):
+            return [rnd(y) for y in x]
+        return repr(x)
+    return repr(rnd(c))
 
 
 def full_snapshot(pool):
-    return snapshot((pool, module_globals()))
+    return observable((pool, module_globals()))
 
 
 def diff_names(pool, fresh):
     bad = []
     for k in pool:
-        if snapshot(pool[k]) != snapshot(fresh[k]):
+        if observable(pool[k]) != observable(fresh[k]):
             bad.append(k)
     return bad
 
@@ -235,6 +250,64 @@ def purity(tier, res, seed=0):
     if len(res.samples) < 10:
         res.samples.append({'purity-history': [list(qs[7]), list(qs[-3])]})
     return 1, transitions
+
+
+# --------------------------------------------------------------------------- in-place coordinate mutation between queries
+
+COORD_MUTS = {
+    'Point': [('setattr-x', lambda p: setattr(p, 'x', 2.0), lambda c: [2.0, c[1], c[2]]),
+              ('setitem-1', lambda p: p.__setitem__(1, 0.25), lambda c: [c[0], 0.25, c[2]]),
+              ('setitem-2', lambda p: p.__setitem__(2, 1.0), lambda c: [c[0], c[1], 1.0])],
+    'Vector': [('setitem-0', lambda v: v.__setitem__(0, -2.0), lambda c: [-2.0, c[1], c[2]]),
+               ('setitem-1', lambda v: v.__setitem__(1, 2.0), lambda c: [c[0], 2.0, c[2]]),
+               ('setitem-2', lambda v: v.__setitem__(2, 0.0), lambda c: [c[0], c[1], 0.0])],
+}
+
+
+def _mut_job(arg):
+    """q1 ; mutate a coordinate of operand o in place ; q2  ==  q2 on an o constructed with the new coordinates."""
+    tier, oname = arg
+    names = pool_for(tier)
+    t = tn(oname)
+    qs = [q for q in query_instances(names) if oname in q[1:]]
+    viols = []
+    n = 0
+    cls = Point if t == 'Point' else Vector
+    for mname, mut, newc in COORD_MUTS[t]:
+        for q1 in qs:
+            for q2 in qs:
+                need = set(q1[1:]) | set(q2[1:])
+                pool = {k: lib.construct(k, BUILDERS[k]) for k in need}
+                run_query(pool, q1)
+                c0 = list(lib._c(pool[oname]))
+                mut(pool[oname])
+                a2 = answer(run_query(pool, q2))
+                pool2 = {k: lib.construct(k, BUILDERS[k]) for k in set(q2[1:])}
+                pool2[oname] = cls(*newc(c0))
+                exp = answer(run_query(pool2, q2))
+                n += 1
+                if a2 != exp:
+                    viols.append(Viol('C20|mutation|%s.%s|%s-then-%s|stale-answer-after-in-place-mutation' % (t, mname, q1[0], q2[0]),
+                                      core.enc(('mutation', oname, mname, q1, q2)), exp[:300], a2[:300],
+                                      'after %r, %s %s, query %r answers as if the coordinates had not changed (or otherwise differs from a freshly '
+                                      'constructed operand)' % (q1, oname, mname, q2), family='mutation'))
+    return n, viols
+
+
+def mutation_consistency(tier, res, seed=0):
+    import multiprocessing
+    names = pool_for(tier)
+    objs = [n for n in names if tn(n) in ('Point', 'Vector')]
+    ctx = multiprocessing.get_context('fork')
+    trans = 0
+    with ctx.Pool(min(core.NPROC, len(objs))) as pool:
+        for n, viols in pool.imap_unordered(_mut_job, [(tier, o) for o in objs]):
+            trans += n
+            for v in viols:
+                res.add_viol(v)
+    res.extra['mutation_consistency'] = {'objects': objs, 'histories': trans}
+    res.samples.append({'mutation-history': ['hash(Point#0)', 'Point#0.x = 2.0', 'Point#0 in Segment#0']})
+    return trans
 
 
 # --------------------------------------------------------------------------- ownership
@@ -330,14 +403,14 @@ def run_history(rname, hist):
     t_c = None
     cp_ref = None
     for ev in hist:
-        before = values(comp)
-        before_cp = values(cp) if cp is not None else None
+        before = observable(comp)
+        before_cp = observable(cp) if cp is not None else None
         if ev[0] == 'A':
             muts = arg_mutations(args[ev[1]])
             muts[ev[2]][1](args[ev[1]])
-            if values(comp) != before:
+            if observable(comp) != before:
                 problems.append(('composite-changed-by-argument-mutation:' + muts[ev[2]][0], 'arg %d' % ev[1]))
-            if cp is not None and values(cp) != before_cp:
+            if cp is not None and observable(cp) != before_cp:
                 problems.append(('copy-changed-by-argument-mutation', 'arg %d' % ev[1]))
         elif ev[0] == 'D':
             cp = lib.call(copy.deepcopy, comp)
@@ -348,12 +421,12 @@ def run_history(rname, hist):
             e = lib.call(lambda: (cp == comp) and (comp == cp))
             if e is not True:
                 problems.append(('deepcopy-not-equal', lib.describe(e)))
-            if values(cp) != values(comp):
+            if observable(cp) != observable(comp):
                 problems.append(('deepcopy-value-differs', ''))
             if ids_of(cp) & ids_of(comp):
                 problems.append(('deepcopy-shares-mutable-state', ''))
             t_c = list(t_o)
-            if values(comp) != before:
+            if observable(comp) != before:
                 problems.append(('deepcopy-mutated-original', ''))
         elif ev[0] == 'Mc':
             if cp is None:
@@ -363,7 +436,7 @@ def run_history(rname, hist):
             if isinstance(r, lib.Raised):
                 problems.append(('copy-move-raises:' + r.cls, repr(r)))
             t_c = [t_c[i] + v[i] for i in range(3)]
-            if values(comp) != before:
+            if observable(comp) != before:
                 problems.append(('original-changed-by-moving-the-copy', ''))
         elif ev[0] == 'Mo':
             v = MOVE_V[ev[1]]
@@ -371,7 +444,7 @@ def run_history(rname, hist):
             if isinstance(r, lib.Raised):
                 problems.append(('move-raises:' + r.cls, repr(r)))
             t_o = [t_o[i] + v[i] for i in range(3)]
-            if cp is not None and values(cp) != before_cp:
+            if cp is not None and observable(cp) != before_cp:
                 problems.append(('copy-changed-by-moving-the-original', ''))
     # final: composite equals pristine moved by t_o; copy equals pristine moved by t_c
     for label, obj, t in (('composite', comp, t_o), ('copy', cp, t_c)):
@@ -455,22 +528,37 @@ def run(tier, seed):
     res = core.Result('C20')
     s1, t1 = purity(tier, res, seed)
     s2, t2 = ownership(tier, res, seed)
+    t3 = mutation_consistency(tier, res, seed)
     res.states = s1 + s2
-    res.transitions = t1 + t2
-    res.traces = t1 + t2
-    res.evals = t1 + t2
+    res.transitions = t1 + t2 + 3 * t3
+    res.traces = t1 + t2 + t3
+    res.evals = t1 + t2 + 3 * t3
     res.nontrivial = res.extra['purity']['distinct_answers']
     res.rule = ('purity: states = bit-exact snapshots of (pool of objects of all types, all Geometry3D module globals) - every query instance and every '
                 'ordered pair of query instances (quick: pairs sharing an operand) is executed and must be a self-loop with history-independent answers; '
                 'ownership: every history up to the stated depth over {each in-place mutation of each shared constructor argument, deepcopy, move copy, move '
                 'original} for each composite recipe, value snapshots compared after every step; states counted = 1 pool state + 1 per composite recipe '
-                '(all transitions must be self-loops on the observed value)')
+                '(all transitions must be self-loops on the observed value); mutation consistency: for every Point / Vector of the pool, every (query, in-place coordinate '
+                'assignment, query) history must answer like a freshly constructed operand')
     lib.assert_default_tolerance()
     return res
 
 
 def replay(family, scene):
     sc = core.dec(scene)
+    if sc[0] == 'mutation':
+        oname, mname, q1, q2 = sc[1], sc[2], tuple(sc[3]), tuple(sc[4])
+        t = tn(oname)
+        mut, newc = next((m, nc) for n_, m, nc in COORD_MUTS[t] if n_ == mname)
+        pool = {k: lib.construct(k, BUILDERS[k]) for k in set(q1[1:]) | set(q2[1:])}
+        run_query(pool, q1)
+        c0 = list(lib._c(pool[oname]))
+        mut(pool[oname])
+        a2 = answer(run_query(pool, q2))
+        pool2 = {k: lib.construct(k, BUILDERS[k]) for k in set(q2[1:])}
+        pool2[oname] = (Point if t == 'Point' else Vector)(*newc(c0))
+        exp = answer(run_query(pool2, q2))
+        return [] if a2 == exp else [Viol('C20|mutation|%s.%s|%s-then-%s|stale-answer-after-in-place-mutation' % (t, mname, q1[0], q2[0]), scene, exp[:300], a2[:300], '')]
     if sc[0] == 'ownership':
         probs = run_history(sc[1], tuple(tuple(x) for x in sc[2]))
         return [Viol('C20|ownership|%s|%s' % (sc[1], sym), scene, 'composite owns its data', det, sym) for sym, det in probs]
